@@ -311,6 +311,14 @@ impl FetchState {
                 };
                 log::trace!(target: "fetch", "{sigrefs_at:?}");
                 self.run_stage(handle, handshake, &sigrefs_at)?;
+                // N.b. the `rad/sigrefs` reference is updated to the announced
+                // `Oid`, so that is the object which must be verified and
+                // whose references are fetched -- not the tip the serving
+                // node advertises (it may have moved on, or be missing) nor
+                // the one in local storage.
+                for RefsAt { remote, at } in &refs_at {
+                    self.sigrefs.insert(*remote, *at);
+                }
                 let remotes = refs_at.iter().map(|r| &r.remote);
 
                 let signed_refs = sigrefs::RemoteRefs::load(&self.as_cached(handle), remotes)?;
